@@ -325,6 +325,25 @@ func checkC15(run *rt.Run, r *frun) bool {
 					if c.MaxFiles > 0 && len(rot) > c.MaxFiles {
 						return bad("retention", fmt.Sprintf("step %d: %d rotated files remain right after the rotation, MaxFiles=%d: %v", i, len(rot), c.MaxFiles, rot))
 					}
+					// retention removes no more than it must: if something was pruned, exactly MaxFiles remain
+					prunedNow := 0
+					for name, pf := range prev {
+						if _, ns := c.inNamespace(name); !ns {
+							continue
+						}
+						gone := true
+						for _, cf := range st.Snap {
+							if cf.Ino == pf.Ino {
+								gone = false
+							}
+						}
+						if gone {
+							prunedNow++
+						}
+					}
+					if c.MaxFiles > 0 && prunedNow > 0 && len(rot) < c.MaxFiles {
+						return bad("retention-too-eager", fmt.Sprintf("step %d: %d rotated files were pruned but only %d remain, MaxFiles=%d: the newest MaxFiles must be kept", i, prunedNow, len(rot), c.MaxFiles))
+					}
 					// survivors are the newest: every removed rotated file is older than every survivor
 					var minSurv int64 = 1 << 62
 					for _, n := range rot {
